@@ -1,7 +1,7 @@
 CONSTANTS
   RN = 11
   RCap = 0
-  RBlocks = 4
+  RBlocks = 2
   Configs <- RConfigs
 INIT Init
 NEXT Next
